@@ -535,6 +535,11 @@ Proof.
   induction l as [|a l IH]; cbn; [tauto|]. intros H x [<-|Hx]; apply app_eq_nil in H as [H1 H2]; auto.
 Qed.
 
+Lemma existsb_false {A} (f : A -> bool) l : existsb f l = false -> forall x, In x l -> f x = false.
+Proof.
+  induction l as [|a l IH]; cbn; [tauto|]. intros H x [<-|Hx]; apply orb_false_iff in H as [H1 H2]; auto.
+Qed.
+
 Lemma qos_rule_inv maxq qos : (qos <=? maxq) = true -> qos_dyn maxq qos = true.
 Proof.
   unfold qos_dyn. intros H. destruct (maxq =? 0) eqn:E0; [lia|].
@@ -546,8 +551,8 @@ Ltac conj_goal := repeat match goal with |- (_ && _) = true => apply andb_true_i
 Ltac ack_complete Hv :=
   cbn [violations res_of] in Hv; unfold ack_rules, size_rules in Hv; nil_facts;
   rewrite is_ok_dynamic;
-  [ cbn [static_spec dyn_spec]; split; [unfold ack_static | unfold ack_dyn, check_size_spec]; conj_goal; assumption
-  | intros _; split; [reflexivity|split; [rewrite spec_remaining_res; unfold VLI_MAX in *; cbn [res_of] in *; lia|exact I]] ].
+  [ cbn [static_spec dyn_spec bind_pid]; split; [unfold ack_static | unfold ack_dyn, check_size_spec]; conj_goal; assumption
+  | cbn [bind_pid]; intros _; split; [reflexivity|split; [cbn [res_of bind_pid]; unfold VLI_MAX in *; lia|exact I]] ].
 
 Theorem complete_rules : forall st co r p id,
   submitted p -> unsub_overstrict st p = false ->
@@ -601,9 +606,9 @@ Proof.
     cbn [violations res_of] in Hv. unfold subscribe_rules, size_rules in Hv. cbn [s_pid s_subs s_subid s_up] in Hv. nil_facts.
     cbn [submitted] in Hsub.
     rewrite is_ok_dynamic.
-    2:{ intros _. split; [reflexivity|split; [rewrite spec_remaining_res; unfold VLI_MAX in *; cbn [res_of] in *; lia|]].
+    2:{ intros _. split; [reflexivity|split; [cbn [res_of bind_pid]; unfold VLI_MAX in *; lia|]].
         cbn. destruct (s_subid p); [split_and; lia|exact I]. }
-    cbn [static_spec dyn_spec]. split; [unfold subscribe_static, subid_static | unfold subscribe_dyn, check_size_spec; cbn [s_pid s_subs]];
+    cbn [static_spec dyn_spec bind_pid]. split; [unfold subscribe_static, subid_static | unfold subscribe_dyn, check_size_spec; cbn [s_pid s_subs]];
     conj_goal; try assumption; try (rewrite Hsub; reflexivity).
     apply forallb_forall. intros x Hx.
     match goal with H : flat_map _ _ = [] |- _ => pose proof (flat_map_nil _ _ H x Hx) as Hx' end.
@@ -613,13 +618,13 @@ Proof.
     cbn [violations res_of] in Hv. unfold unsubscribe_rules, size_rules in Hv. cbn [u_pid u_filters u_up] in Hv. nil_facts.
     cbn [submitted] in Hsub. cbn [unsub_overstrict] in Hov.
     rewrite is_ok_dynamic.
-    2:{ intros _. split; [reflexivity|split; [rewrite spec_remaining_res; unfold VLI_MAX in *; cbn [res_of] in *; lia|exact I]]. }
-    cbn [static_spec dyn_spec]. split; [unfold unsubscribe_static | unfold unsubscribe_dyn, check_size_spec; cbn [u_pid u_filters]];
+    2:{ intros _. split; [reflexivity|split; [cbn [res_of bind_pid]; unfold VLI_MAX in *; lia|exact I]]. }
+    cbn [static_spec dyn_spec bind_pid]. split; [unfold unsubscribe_static | unfold unsubscribe_dyn, check_size_spec; cbn [u_pid u_filters]];
     conj_goal; try assumption; try (rewrite Hsub; reflexivity).
     apply forallb_forall. intros x Hx.
     match goal with H : flat_map _ _ = [] |- _ => pose proof (flat_map_nil _ _ H x Hx) as Hx' end.
     unfold unsubscribe_filter_rules in Hx'. nil_facts.
-    assert (Ho := Hov). rewrite <- negb_true_iff, negb_existsb in Ho. rewrite forallb_forall in Ho. specialize (Ho x Hx).
+    pose proof (existsb_false _ _ Hov x Hx) as Ho. cbn beta in Ho.
     unfold filter_dyn, no_local_set. conj_goal; try assumption;
     destruct (spec_shared_filter x), (st_shared_subscriptions_available st), (filter_has_wildcard x), (st_wildcard_subscriptions_available st);
       cbn in *; congruence.
@@ -627,13 +632,13 @@ Proof.
   - (* DISCONNECT *)
     cbn [violations res_of] in Hv. unfold disconnect_rules, size_rules in Hv. nil_facts. split_and.
     rewrite is_ok_dynamic.
-    2:{ intros _. split; [reflexivity|split; [rewrite spec_remaining_res; unfold VLI_MAX in *; cbn [res_of] in *; lia|exact I]]. }
-    cbn [static_spec dyn_spec]. split; [unfold disconnect_static | unfold disconnect_dyn, check_size_spec, sei_dyn];
+    2:{ intros _. split; [reflexivity|split; [cbn [res_of bind_pid]; unfold VLI_MAX in *; lia|exact I]]. }
+    cbn [static_spec dyn_spec bind_pid]. split; [unfold disconnect_static | unfold disconnect_dyn, check_size_spec, sei_dyn];
     conj_goal; assumption.
   - (* AUTH *)
     cbn [violations res_of] in Hv. unfold auth_rules, size_rules in Hv. nil_facts. split_and.
     rewrite is_ok_dynamic.
-    2:{ intros _. split; [reflexivity|split; [rewrite spec_remaining_res; unfold VLI_MAX in *; cbn [res_of] in *; lia|exact I]]. }
-    cbn [static_spec dyn_spec]. split; [unfold auth_static, is_none | unfold auth_dyn, check_size_spec];
+    2:{ intros _. split; [reflexivity|split; [cbn [res_of bind_pid]; unfold VLI_MAX in *; lia|exact I]]. }
+    cbn [static_spec dyn_spec bind_pid]. split; [unfold auth_static, is_none | unfold auth_dyn, check_size_spec];
     conj_goal; try assumption. destruct (au_method p); [reflexivity|discriminate].
 Qed.
